@@ -21,6 +21,7 @@ import Bermuda.Lemmas.ResampleExt
 import Bermuda.Lemmas.ResampleME
 import Bermuda.Lemmas.ResampleATA
 import Bermuda.Lemmas.ResampleMESpec
+import Bermuda.Lemmas.ResampleBoot
 namespace Bermuda.Properties.C17
 open Bermuda Bermuda.Resample
 
@@ -195,6 +196,67 @@ theorem bootstrap_structure {t : List Cell} {n : Int} {field : Option (List Stri
     obtain ⟨c, hc, hr⟩ := forall₂_mem_right hf' o (hpr.mem_iff.mp ho)
     exact ⟨c, hpt.mem_iff.mp hc, hr⟩
 
+/-- **spec_bootstrap_structure** (bridge). `Spec.C17.bootstrapStructureOk` — the verdict `structure` of the
+driver — is true of the model's replicates: `n` of them, each with one cell at every source coordinate (metadata
+tagged `bootstrap = i`), of the same class and with EXACTLY the source cell's field names. Hypotheses the Bool
+predicate needs beyond `bootstrap_structure`: coordinates pairwise distinct (the predicate looks cells up by
+coordinate), the tag keeps slices apart (`TagInjective`: false only if two slices differ in nothing but a
+`bootstrap` detail), and every cell carries every field name of the triangle (`UniformFields`; otherwise a
+developed cell may inherit a field name from the previous cell of its row and only `TagRel`'s ⊇ holds). -/
+theorem spec_bootstrap_structure {t : List Cell} {n : Int} {field : Option (List String)}
+    {P : Nat → Nat → RepParam} {reps : List (List Cell)}
+    (h : bootstrap t n field P = .ok reps) (hk : kindsConsistent t = true) (hne : Triangle.slices t ≠ [])
+    (hnd : (t.map (·.coord)).Nodup) (hinj : ∀ i, TagInjective t i) (hU : UniformFields t) :
+    Spec.C17.bootstrapStructureOk t n.toNat reps = true := by
+  simp only [Spec.C17.bootstrapStructureOk, bootstrap_count h hne, beq_self_eq_true, Bool.true_and,
+    List.all_eq_true]
+  rintro ⟨rep, i⟩ hm
+  have hget : reps[i]? = some rep := by simpa using List.mem_zipIdx_iff_getElem?.mp hm
+  obtain ⟨hi, rfl⟩ := List.getElem?_eq_some_iff.mp hget
+  obtain ⟨t', l, hpt, hpr, hf⟩ := bootstrap_structure_perm h hk i hi
+  exact replicateStructureOk_model hpr hf hpt hnd (hinj i) hU
+
+/-- **bootstrap_first_unchanged.** `develop_first_unchanged` lifted through `_bootstrap_slice`, the bootstrap
+tag and `sum(boot)` to the RESULT of `bootstrap` (canonical source, EVERY factor table and quantile vector): a
+cell that is the earliest development cell of its period in a slice routed to the age-to-age method has, in
+every replicate `i`, exactly one counterpart at its coordinates, and that counterpart is the cell itself with
+only the detail `bootstrap = i` added — all values unchanged. -/
+theorem bootstrap_first_unchanged {t : List Cell} {n : Int} {field : Option (List String)}
+    {P : Nat → Nat → RepParam} {reps : List (List Cell)}
+    (h : bootstrap t n field P = .ok reps) (hk : kindsConsistent t = true)
+    (hs : t.Pairwise (fun a b => Cell.le a b)) (hnd : (t.map (·.coord)).Nodup) (hinj : ∀ i, TagInjective t i) :
+    ∀ i (hi : i < reps.length), ∀ c ∈ t, useAtas (Spec.C17.sliceOf t c) = true →
+      initialLag (Spec.C17.sliceOf t c) (c.ps, c.pe) = some c.devLag →
+      Spec.C17.repCell reps[i] c i = some (tagCell i c) := by
+  intro i hi c hc hu hinit
+  obtain ⟨t', l, hpt, hpr, hf⟩ := bootstrap_structure_perm2 h hk hs i hi
+  obtain ⟨o, ⟨_, hfirst⟩, hrep⟩ := repCell_of_pairing (fun _ _ h => h.1.1) hpr hf hpt hnd (hinj i) c hc
+  rw [hrep, hfirst hu hinit]
+
+/-- **spec_first_unchanged** (bridge). `Spec.C17.firstCellsUnchanged` — the verdict `first` of the driver — is
+true of every replicate of the model (field names within a cell distinct, as in a Python dict) -/
+theorem spec_first_unchanged {t : List Cell} {n : Int} {field : Option (List String)}
+    {P : Nat → Nat → RepParam} {reps : List (List Cell)}
+    (h : bootstrap t n field P = .ok reps) (hk : kindsConsistent t = true)
+    (hs : t.Pairwise (fun a b => Cell.le a b)) (hnd : (t.map (·.coord)).Nodup) (hinj : ∀ i, TagInjective t i)
+    (hwf : ∀ c ∈ t, c.values.keys.Nodup) :
+    ∀ i (hi : i < reps.length), Spec.C17.firstCellsUnchanged t reps[i] i = true := by
+  intro i hi
+  obtain ⟨t', l, hpt, hpr, hf⟩ := bootstrap_structure_perm2 h hk hs i hi
+  exact firstCellsUnchanged_model hpr hf hpt hnd (hinj i) hwf
+
+/-- both bridges for the model that takes numpy's index draws (`bootstrapD`), as the driver runs it -/
+theorem spec_bootstrapD {t : List Cell} {n : Int} {field : Option (List String)}
+    {D : Nat → Nat → Draws} {reps : List (List Cell)}
+    (h : bootstrapD t n field D = .ok reps) (hk : kindsConsistent t = true)
+    (hs : t.Pairwise (fun a b => Cell.le a b)) (hne : Triangle.slices t ≠ [])
+    (hnd : (t.map (·.coord)).Nodup) (hinj : ∀ i, TagInjective t i) (hU : UniformFields t)
+    (hwf : ∀ c ∈ t, c.values.keys.Nodup) :
+    Spec.C17.bootstrapStructureOk t n.toNat reps = true ∧
+    ∀ i (hi : i < reps.length), Spec.C17.firstCellsUnchanged t reps[i] i = true :=
+  ⟨spec_bootstrap_structure (bootstrapD_eq h) hk hne hnd hinj hU,
+   spec_first_unchanged (bootstrapD_eq h) hk hs hnd hinj hwf⟩
+
 /-! ### 4. thin -/
 
 /-- **thin_eq_self.** `k` equal to the sample count returns the triangle itself. -/
@@ -216,6 +278,29 @@ theorem thin_same_positions {t out : List Cell} {k : Nat} {idx : List Nat}
     ∀ c ∈ t, (thinCell idx c).coord = c.coord ∧ (thinCell idx c).kind = c.kind ∧
       (thinCell idx c).values = c.values.map (fun (f, v) => (f, thinVal idx v)) :=
   ⟨thin_fresh h hk hs, fun _ _ => ⟨rfl, rfl, rfl⟩⟩
+
+/-- what `rng.choice(n, size=k, replace=False)` guarantees about its result (the interface fact about the draw;
+the harness asserts the recorded call had `size == k`, `replace is False` and checks the three facts) -/
+def ValidDraw (n k : Nat) (idx : List Nat) : Prop := idx.length = k ∧ idx.Nodup ∧ ∀ i ∈ idx, i < n
+
+/-- **thin_positions_count.** For a valid draw every array of `n > 1` samples becomes an array of EXACTLY `k`
+entries, the `j`-th being the source's sample at position `idx[j]`; the `k` positions are pairwise distinct and
+in range, the same in every array of every cell (`thin_same_positions`) -/
+theorem thin_positions_count {n k : Nat} {idx : List Nat} (hv : ValidDraw n k idx) (isInt : Bool) (m : Nat)
+    (d : List Rat) (hd : d.length = n) (h1 : n > 1) :
+    ∃ r, thinVal idx (.arr isInt [m] d) = .arr isInt [k] r ∧ r.length = k ∧
+      (∀ j (hj : j < idx.length), r[j]? = d[idx[j]]? ∧ idx[j] < d.length) ∧
+      ∀ j j' (hj : j < idx.length) (hj' : j' < idx.length), j ≠ j' → idx[j] ≠ idx[j'] := by
+  obtain ⟨hk, hnd, hr⟩ := hv
+  refine ⟨idx.map (d.getD · 0), ?_, by simp [hk], ?_, ?_⟩
+  · have : d.length > 1 := by omega
+    simp [thinVal, this, gather, hk]
+  · intro j hj
+    have hlt : idx[j] < d.length := by rw [hd]; exact hr _ (List.getElem_mem hj)
+    refine ⟨?_, hlt⟩
+    simp [hj, List.getD_eq_getElem?_getD, List.getElem?_eq_getElem hlt]
+  · intro j j' hj hj' hne he
+    exact hne ((List.Nodup.getElem_inj_iff hnd).mp he)
 
 /-- what happens to an array: positions `idx`, in that order, nothing else -/
 theorem thinVal_array (idx : List Nat) (isInt : Bool) (n : Nat) (d : List Rat) (h : d.length > 1) :
@@ -531,6 +616,13 @@ theorem me_bootstrap_limits {xs U qs : List Rat} (h : meQuantiles xs U (some (bo
     · left; rw [hmax]; linarith
     · right; linarith
 
+/-- for `bootstrap`'s own limits the binding condition is EXACTLY "non-negative data and `x₀ + x₁/2 ≤ max x`"
+(the signature of known finding D26 is the negation of the right-hand side) -/
+theorem me_bootstrap_limits_bind_iff (xs : List Rat) (h2 : 2 ≤ xs.length) :
+    limitsBind (sortQ xs) 0 (bootLimits xs).2 = true ↔
+      0 ≤ (sortQ xs).getD 0 0 ∧ (sortQ xs).getD 0 0 + (sortQ xs).getD 1 0 / 2 ≤ (bootLimits xs).2 :=
+  limitsBind_boot_iff xs h2
+
 /-- the upper limit can indeed be exceeded (`[10, 11]`, `L = (0, 11)`, draw 0.49: 15.29 > 11): "within the
 given limits" holds under `limitsBind` only — see `notes/agents/c17b.md` -/
 theorem me_exceeds_upper_limit :
@@ -604,6 +696,13 @@ theorem develop_value {t out : List Cell} {F : Factors} {f : String} {pre row re
       numGet o.values f = some (a * prodQ (xs.take (k + 1))) :=
   develop_row_value h hk hs ht h0 hnd ha hrow
 
+/-- **the vector `p` handed to `rng.choice`** (`_normalize`; `ataWeights` computes it from the slice): as long as the
+vector, sums to 1, and is non-negative on non-negative values — a probability vector. Which positions
+`Generator.choice` then realises is the only thing left outside. -/
+theorem ata_weights_probability {x p : List Rat} (h : normalizeW x = .ok p) :
+    p.length = x.length ∧ sumQ p = 1 ∧ ((∀ v ∈ x, 0 ≤ v) → ∀ v ∈ p, 0 ≤ v) :=
+  normalizeW_spec h
+
 /-- **bootstrapD_is_bootstrap.** The model that takes numpy's INDEX draws (and computes the empirical factors
 itself, `ataTable` / `resampledAtas`) is an instance of the factor-table model … -/
 theorem bootstrapD_is_bootstrap {t : List Cell} {n : Int} {field : Option (List String)}
@@ -639,5 +738,55 @@ theorem gamma_params_match (mu s2 : Rat) (hmu : mu ≠ 0) (hs : s2 ≠ 0) :
 
 /-- the variance handed to the sampler is not negative -/
 theorem variance_nonneg (d : List Rat) : 0 ≤ varQ d := varQ_nonneg d
+
+/-! ### 10. non-vacuity: closed instances on which the operations SUCCEED in the model
+
+(`decide` cannot evaluate `List.mergeSort`; the sorts are discharged with `List.mergeSort_of_pairwise` /
+`ofCells_of_sorted` on inputs that are already in order. A closed instance of the whole `bootstrap` would need
+the same staging at eight sort sites (`Triangle.slices`, `Triangle.metadata`, `periodsOf`, `sortedLags`,
+`fieldsOf`, three `ofCells`) and is NOT given: its success is evidenced by the driver, evidence counters
+`bootstrap/ok`.) -/
+
+/-- closed instance: `thin` SUCCEEDS with a valid draw (k = 2 of n = 3, positions 2 and 0) -/
+example : thin exSamples 2 [2, 0] = .ok (.fresh (exSamples.map (thinCell [2, 0]))) := by
+  have hn : numSamples exSamples = .ok 3 := by decide +kernel
+  have hk : kindsConsistent (exSamples.map (thinCell [2, 0])) = true := by decide +kernel
+  have hs : (exSamples.map (thinCell [2, 0])).Pairwise (fun a b => Cell.le a b) := by decide +kernel
+  simp [thin, hn, ofCells_of_sorted hk hs]
+
+/-- closed instance: `moment_match` on a scalar field succeeds and returns the triangle -/
+example : momentMatch exSamples ["earned_premium"] true (fun _ _ => [1, 2, 3]) = .ok exSamples := by
+  have hk : kindsConsistent exSamples = true := by decide +kernel
+  have hs : exSamples.Pairwise (fun a b => Cell.le a b) := by decide +kernel
+  have hmf : momentField "earned_premium" (fun _ => [1, 2, 3]) 0 exSamples = .ok exSamples := by decide +kernel
+  simp only [momentMatch, ex_fields]
+  simp [momentLoop, hmf, ofCells_of_sorted hk hs]
+
+/-- closed instance: `moment_match` on the sample field succeeds; every cell's array is replaced by the drawn
+vector in the old samples' rank order (`ex_rank`: `[5,1,3]` receives `[3,1,2]`) -/
+example : momentMatch exSamples ["paid_loss"] true (fun _ _ => [1, 2, 3]) = .ok exOut := by
+  have hk : kindsConsistent exOut = true := by decide +kernel
+  have hs : exOut.Pairwise (fun a b => Cell.le a b) := by decide +kernel
+  have hmf : momentField "paid_loss" (fun _ => [1, 2, 3]) 0 exSamples = .ok exOut := rfl
+  simp only [momentMatch, ex_fields]
+  simp [momentLoop, hmf, ofCells_of_sorted hk hs]
+
+example : reimposeRank [5, 1, 3] [1, 2, 3] = [3, 1, 2] := by
+  have hsort : sortQ [1, 2, 3] = [1, 2, 3] := List.mergeSort_of_pairwise (by decide +kernel)
+  simp only [reimposeRank, hsort]
+  decide +kernel
+
+example : ValidDraw 3 2 [2, 0] := ⟨rfl, by decide, by decide⟩
+
+/-- the hypotheses of the bootstrap bridges are satisfiable: the two-cell triangle has distinct coordinates,
+uniform field names and an injective tag -/
+example : (exSamples.map (·.coord)).Nodup ∧ UniformFields exSamples ∧ ∀ i, TagInjective exSamples i := by
+  refine ⟨by decide +kernel, ?_, ?_⟩
+  · intro c hc c' hc' f hf
+    simp only [exSamples, List.mem_cons, List.not_mem_nil, or_false] at hc hc'
+    rcases hc with rfl | rfl <;> rcases hc' with rfl | rfl <;> simpa [exCell, Dict.keys] using hf
+  · intro i c1 h1 c2 h2 _
+    simp only [exSamples, List.mem_cons, List.not_mem_nil, or_false] at h1 h2
+    rcases h1 with rfl | rfl <;> rcases h2 with rfl | rfl <;> rfl
 
 end Bermuda.Properties.C17
